@@ -192,6 +192,17 @@ fn run_case_inner(c: &Case) -> Result<(), String> {
     } else {
         build(&c.modes).map_err(|e| format!("build failed: {e}"))?
     };
+    // C02, "the empty string is never accepted": in the dump of the compiled automata (mode automata and lookahead automata alike) the
+    // end-state entry of state 0 is never an accepting one
+    let dump = format!("{:?}", scanner);
+    let mut from = 0;
+    while let Some(i) = dump[from..].find("end_states: [") {
+        let at = from + i + "end_states: [".len();
+        if dump[at..].starts_with("(true") {
+            return Err("dump of the compiled automata: the start state of an automaton is marked accepting (the empty string would be accepted)".into());
+        }
+        from = at;
+    }
     let input = c.input.as_str();
     // operations on the Scanner before the iterator exists must not matter
     for op in &c.ops {
@@ -748,7 +759,8 @@ const PATS: &[&str] = &["a", "b", "c", "ab", "abc", "a+", "b+", "[ab]", "[ab]+",
     // tokens that run over several lines
     "[a-c\n]+", "a\nb", "\n(b\n)+", "[^x]+x", "(b|\n)+c",
     "\\.", "a\\.b?"];
-const LAS: &[&str] = &["a", "b", "c", "bc", "b+", "é", "[ab]", "x", "c+", "\n", "bc?", "b{1,2}", "ab?", "b|bc", "b*c", "a?b", "(ab)+", "c{2}"];
+const LAS: &[&str] = &["a", "b", "c", "bc", "b+", "é", "[ab]", "x", "c+", "\n", "bc?", "b{1,2}", "ab?", "b|bc", "b*c", "a?b", "(ab)+", "c{2}",
+    "(a*)+b", "(b?)*c", "(a|b?)*c", "(b*c?)*x", "b*", "(b|)c"];
 const ALPHA: &[char] = &['a', 'b', 'c', 'é', '\n', 'x', 'a', 'b', '€', '😀', 'c', '\n', '.'];
 
 fn gen_input(r: &mut Rng, maxlen: usize) -> String {
@@ -817,7 +829,7 @@ fn gen_pats(r: &mut Rng, with_la: bool, n: usize, numbering: usize) -> Vec<PatSp
     for _ in 0..n {
         // three quarters from the pool, one quarter structured random regexes (every operator, nested)
         let p = if r.below(4) == 0 { let d = 1 + r.below(2); gen_regex(r, d) } else if r.below(24) == 0 { String::new() /* the empty pattern: valid, never yields a token, keeps its position */ } else { r.pick(PATS).to_string() };
-        let la = if with_la && r.below(2) == 0 { Some((r.below(3) != 0, if r.below(4) == 0 { gen_regex(r, 1) } else { r.pick(LAS).to_string() })) } else { None };
+        let la = if with_la && r.below(2) == 0 { Some((r.below(3) != 0, if r.below(4) == 0 { let d = 1 + r.below(2); gen_regex(r, d) } else { r.pick(LAS).to_string() })) } else { None };
         out.push(PatSpec { p, tt: tts.remove(0), la });
     }
     // the same pattern text listed twice (the later copy can never win a tie, but it keeps its own position / token type)
